@@ -53,6 +53,17 @@ def inputs_for(tier, w):
         "sp-helpers.h": ("struct fl { int n; char d[]; };\nunion un { int i; float f; };\nstruct bf { unsigned a:3; unsigned b:5; };\n"
                          "struct big { char c[40]; };\n", ["--no-derive-copy", "--with-derive-default"]),
     }
+    # persistent state on disk: the macro fall-back keeps a precompiled header in its build directory; two
+    # inputs share one directory (sequentially - the option is documented to use fixed file names there) with
+    # different headers and different -D flags, so a generation must not see what an earlier one left behind
+    fbdir = os.path.join(w, "fallback-build")
+    os.makedirs(fbdir, exist_ok=True)
+    fb = ("#define SHIFT(x) (1u << (x))\n#define MASK ((unsigned)(SHIFT(3) | SHIFT(5)))\n#ifdef VARIANT\n"
+          "#define LIMIT ((long)(VARIANT * 100))\n#else\n#define LIMIT ((long)7)\n#endif\nstruct fa { int a; };\n")
+    special["sp-zfallback-a.h"] = (fb, ["--clang-macro-fallback", "--clang-macro-fallback-build-dir", fbdir, "--", "-DVARIANT=2"])
+    special["sp-zfallback-b.h"] = ("#define WIDE(x) ((unsigned long long)(x) << 40)\n#define TOP (WIDE(3))\n"
+                                   "#define LIMIT ((long)(11))\nstruct fbb { long b; };\n",
+                                   ["--clang-macro-fallback", "--clang-macro-fallback-build-dir", fbdir, "--", "-DOTHER=1"])
     for nm, (text, fl) in sorted(special.items()):
         hp = os.path.join(w, nm)
         with open(hp, "w") as f:
@@ -132,6 +143,8 @@ def histories(res, tier):
     # every special input after every other one, on one thread and interleaved on two
     out.append({"order": [0] * 12, "inputs": [0, 1, 0, 1, 2, 1, 3, 1, 0, 3, 2, 0], "special": True})
     out.append({"order": [0, 1] * 6, "inputs": [0, 1, 1, 0, 2, 1, 1, 3, 3, 0, 0, 2], "special": True})
+    # the two inputs that share a macro fall-back build directory, alternating on one thread
+    out.append({"order": [0] * 9, "inputs": [4, 5, 4, 5, 5, 4, 0, 4, 5], "special": True})
     return out
 
 
